@@ -131,6 +131,10 @@ fn run_once(case: &C18Case) -> Result<Value, String> {
             lm.insert("A".into(), vec![location("A", 1)]);
             lm.insert("B".into(), vec![location("B", n as u32)]);
             let mut sim = tsb.make_speed_limit_train_sim(&lm, Some(1), None, None).map_err(e)?;
+            if let Some((t, c)) = tc.brake_ramp_up {
+                sim.fric_brake.ramp_up_time = altrios_core::uc::S * t;
+                sim.fric_brake.ramp_up_coeff = altrios_core::uc::R * c;
+            }
             let mut started = false;
             let r = slts_schedule(&mut sim, tc, &net, &path, false, &mut started).map_err(|x| format!("{x:#}"));
             Ok(serde_json::json!({"result": r.err(), "sim": serde_json::to_value(&sim).map_err(|x| x.to_string())?}))
